@@ -11,8 +11,9 @@ import copy
 import io
 import os
 import random
+import time
 
-from ..common import NAN, NINF, PINF, Verdict, digest, fx, pool_map, use_repo
+from ..common import NINF, PINF, Verdict, digest, fx, pool_map, use_repo
 from ..obs import tlc_obs
 from ..tla import MachineryError, jsonable, run_tlc
 
@@ -250,7 +251,12 @@ def model_cases(tier, seed, v):
         for name, st, raw in r.violations:
             v.divergence("model-level invariant %s violated" % name, None)
         d = run_tlc("Solvers", "SolversDesign.cfg", workdir=wd, workers=2, cont=False)
-        design = [name for name, st, raw in d.violations]
+        # model-level counterexample of the design requirement D_BfswSound: informative only (DESIGN 1: a counterexample of
+        # the model is never reported by itself; the replay of every class below is what decides)
+        design = []
+        for name, st, raw in d.violations:
+            last = st[-1] if isinstance(st, list) and st else st
+            design.append({"invariant": name, "net": jsonable(last["net"]) if isinstance(last, dict) and "net" in last else None})
     finally:
         shutil.rmtree(wd, ignore_errors=True)
     cases = {}
@@ -285,7 +291,6 @@ def run(tier, seed, replay=None):
     v = Verdict("C06", tier, seed, "exploration")
     use_repo()
     extra = {}
-    import time
     t0 = time.time()
     if replay:
         cases = [replay["case"]]
@@ -354,7 +359,8 @@ def run(tier, seed, replay=None):
                 "configurations returned and were compared, and the class has 2 islands, a loop, a PV gen or a shifting transformer",
         "reference_converged": refok, "pairs_compared_with_reference": compared,
         "bfsw_applicable_and_ref_ok": appl, "bfsw_mustsolve_and_ref_ok": must, "outcomes": outc,
-        "conformance_failures": ndiv, "samples": samples,
+        "conformance_failures": ndiv, "runs_with_call_trace": sum(1 for c in cases for r in c["runs"].values() if r["traced"]),
+        "samples": samples,
     }
     v.coverage.update(extra)
     v.assumptions = [
